@@ -185,6 +185,9 @@ class C09(Driver):
         if out.startswith("crash"):
             # (the history of a crashed run is not flushed, so the phase is not known reliably)
             return Violation("C09/crash/signal-%s" % out.split(":")[1], "last phase seen %d; log tail: %s" % (ph, log[-600:]))
+        if out == "timeout":
+            # (killed: the history is not flushed, the phase is unknown)
+            return Violation("C09/run/timeout", "last phase seen %d; log tail: %s" % (ph, log[-600:]))
         return Violation("C09/run/%s/phase=%s" % (out.split(":")[0], "first-vm" if ph == 0 else "after-restart"),
                          "phase %d; log tail: %s" % (ph, log[-600:]))
 
@@ -198,6 +201,7 @@ class C09(Driver):
         ref, img, order = {}, {}, []
         saves, loaded, load_err, done = {}, set(), {}, set()
         asmf, asmg, asm_err = {}, {}, {}
+        nc = {}
         for e in res.events:
             k = e.kind
             if k in ("ref", "img"):
@@ -219,6 +223,8 @@ class C09(Driver):
             elif k in ("asmf", "asmg"):
                 i, j, rest = e.payload.split(" ", 2)
                 (asmf if k == "asmf" else asmg)[(int(i), int(j))] = norm(rest)
+            elif k in ("ncref", "ncimg"):
+                nc[k] = norm(e.payload)
             elif k == "asm-error":
                 i, rest = e.payload.split(" ", 1)
                 asm_err[int(i)] = rest
@@ -273,6 +279,16 @@ class C09(Driver):
                 seen.add(sig)
                 vs.append(Violation(sig, detail))
             break   # later differences are mostly consequences of the first one
+        # value without sharing marshalled with the no-cycles flag
+        if "ncref" in nc and nc.get("ncimg") != nc["ncref"] and not vs:
+            b = nc.get("ncimg")
+            if b is None:
+                vs.append(Violation("C09/no-cycles/missing-after-restart", "no result for the no-cycles image"))
+            elif b.startswith(":err"):
+                vs.append(Violation("C09/no-cycles/error/%s" % err_class(b), b[:300]))
+            else:
+                vs.append(Violation("C09/no-cycles/shape/differs/%s" % classify(nc["ncref"], b),
+                                    "marshal with no-cycles flag\n reference: %s\n restored : %s" % (nc["ncref"][:400], b[:400])))
         # asm/disasm leg
         for i in sorted(asm_err):
             vs.append(Violation("C09/asm/error/%s" % err_class(asm_err[i]), "asm(disasm f) raised for %s: %s" % (plan["asm"][i]["src"][:120], asm_err[i][:200])))
@@ -313,6 +329,7 @@ class C09(Driver):
                 "custom_lookup_entries_used": int(plan["dict"] in ("env", "custom") and "ext" in tags),
                 "second_restart": int(loaded >= 2), "third_restart": int(loaded >= 3),
                 "collector_forced": int(bool(plan["knobs"].get("gc"))),
+                "no_cycles_flag_image": int(bool(plan.get("nocycles"))),
             }
         return x
 
